@@ -5,7 +5,7 @@ CONSTANTS
   KCoinswap = 4
   KFarm = 3
   KHtlc = 3
-  KService = 4
+  KService = 3
   KToken = 5
 VIEW View
 INVARIANTS
